@@ -556,10 +556,16 @@ func (x *Exec) runBody(fr *Frame, entry *State) {
 		// vacuity guard: a block entered shortly after a modelled or contracted
 		// call must be reachable (a model whose success case contradicts the
 		// representation invariants would make everything after it vacuous)
-		if (x.coverBudget > 0 || thoroughTier) && (x.blockCovers < 40 || thoroughTier) && !fr.inline && len(b.Preds) > 0 && !x.declaredDead(fr, b) {
+		if (x.coverBudget > 0 || thoroughTier) && (x.blockCovers < 80 || thoroughTier) && len(b.Preds) > 0 && !x.declaredDead(fr, b) {
 			x.coverBudget--
 			x.blockCovers++
-			o := x.obligation(st, "cover", fmt.Sprintf("%s:block#%d:cover", x.fname(fr), b.Index), TFalse, fnProps(fr), "block "+b.Comment+" reachable", "")
+			cname := fmt.Sprintf("%s:block#%d:cover", x.fname(fr), b.Index)
+			if fr.inline {
+				// a block of an inlined callee (this is where the Source.Get hole sat)
+				x.oblCount[cname]++
+				cname = fmt.Sprintf("%s:inlined %s block#%d:cover#%d", x.curFunc, fn.Name(), b.Index, x.oblCount[cname])
+			}
+			o := x.obligation(st, "cover", cname, TFalse, fnProps(fr), "block "+b.Comment+" reachable", "")
 			o.Cover = true
 		}
 		// phis
